@@ -30,33 +30,35 @@ type closureInfo struct {
 }
 
 type VC struct {
-	p        *Prog
-	fnKey    string
-	decls    []string
-	assumes  []string
-	obls     []*Obligation
-	n        int
-	keySort  map[string]string
-	strLits  map[string]string
-	fltLits  map[string]string
-	closures map[string]*closureInfo
-	frames   int
-	errs     []string
-	trusted  map[string]bool // extern contracts / models / havocs used
-	notes    map[string]bool
-	uf       map[string]bool // declared uninterpreted functions
-	quiet    bool            // suppress obligations (spec-side pure evaluation)
-	inQuant  int             // >0 while evaluating a quantifier body
-	defs     map[string]string
-	lemma    map[int]bool // assumption indices that are proved-elsewhere lemmas
-	lastType map[string]types.Type
-	oblNames map[string]int
-	boxedType map[string]types.Type // box ref term -> static type of the boxed value
-	boundNames []string
-	lastState map[string]*State // state right after the most recent call counted under a label
+	p           *Prog
+	fnKey       string
+	decls       []string
+	assumes     []string
+	obls        []*Obligation
+	n           int
+	keySort     map[string]string
+	strLits     map[string]string
+	fltLits     map[string]string
+	closures    map[string]*closureInfo
+	frames      int
+	errs        []string
+	trusted     map[string]bool // extern contracts / models / havocs used
+	notes       map[string]bool
+	uf          map[string]bool // declared uninterpreted functions
+	quiet       bool            // suppress obligations (spec-side pure evaluation)
+	guarded     [][2]string     // lock discipline of the function under contract (field, mutex field)
+	guardN      int
+	inQuant     int // >0 while evaluating a quantifier body
+	defs        map[string]string
+	lemma       map[int]bool // assumption indices that are proved-elsewhere lemmas
+	lastType    map[string]types.Type
+	oblNames    map[string]int
+	boxedType   map[string]types.Type // box ref term -> static type of the boxed value
+	boundNames  []string
+	lastState   map[string]*State // state right after the most recent call counted under a label
 	beforeState map[string]*State // state right before it
-	labels   map[string]bool // ghost call-history labels the contract under verification uses
-	curPos   token.Pos
+	labels      map[string]bool   // ghost call-history labels the contract under verification uses
+	curPos      token.Pos
 }
 
 func newVC(p *Prog, fnKey string) *VC {
@@ -461,7 +463,9 @@ func (vc *VC) merge(label string, ins []edgeIn) *State {
 	return out
 }
 
-func isGlobalKey(k string) bool { return !(len(k) > 1 && k[0] == 'f' && k[1] >= '0' && k[1] <= '9' && strings.Contains(k, ":")) }
+func isGlobalKey(k string) bool {
+	return !(len(k) > 1 && k[0] == 'f' && k[1] >= '0' && k[1] <= '9' && strings.Contains(k, ":"))
+}
 
 // ---------------------------------------------------------------------------
 // heap access
